@@ -241,7 +241,7 @@ Fixpoint constraints_outer (f : nat) (c : ctx) (m : consmap) : res (consmap * ct
   | S f' =>
       match look2 c with
       | (TIdent ident, TK KColon) =>
-          let+ '(m', again, c1) := constraints_inner (local_fuel c) (skip 2 c) ident [] m in
+          let+ '(m', again, c1) := constraints_inner (local_fuel c) (skip 1 (skip 1 c)) ident [] m in
           if again then constraints_outer f' c1 m' else Ok (m', c1)
       | _ => raise c
       end
